@@ -30,7 +30,8 @@ type anode struct {
 }
 
 type aclass struct {
-	units   []rune // members in source order; a '-' is always spelled raw
+	units   []rune // members in source order; a '-' is spelled raw unless escDash says otherwise
+	escDash []bool // parallel to units: this '-' is written as an escape (\x2d ...): a plain character
 	chars   []rune // derived from units by the grammar's reading (see deriveClass)
 	ranges  [][2]rune
 	classes []string
@@ -42,8 +43,11 @@ type aclass struct {
 func deriveClass(c *aclass) {
 	c.chars, c.ranges = nil, nil
 	u := c.units
+	for len(c.escDash) < len(u) {
+		c.escDash = append(c.escDash, false)
+	}
 	for i := 0; i < len(u); {
-		if i+2 < len(u) && u[i+1] == '-' {
+		if i+2 < len(u) && u[i+1] == '-' && !c.escDash[i+1] {
 			c.ranges = append(c.ranges, [2]rune{u[i], u[i+2]})
 			i += 3
 			continue
@@ -150,6 +154,10 @@ func (g *c03gen) primary() *anode {
 			switch r.Intn(6) {
 			case 0:
 				c.units = append(c.units, '-')
+				for len(c.escDash) < len(c.units)-1 {
+					c.escDash = append(c.escDash, false)
+				}
+				c.escDash = append(c.escDash, r.Intn(3) == 0)
 			case 1, 2:
 				c.units = append(c.units, pickm(), '-', pickm())
 			default:
@@ -322,6 +330,8 @@ func (s *speller) class(c *aclass) string {
 		f := "-"
 		if x != '-' {
 			f = s.runeForm(x, ']')
+		} else if i < len(c.escDash) && c.escDash[i] {
+			f = []string{`\x2d`, `\055`, `\u002d`, `\U0000002d`, `\x2D`}[s.r.Intn(5)]
 		}
 		if i == 0 && !c.inv && f == "^" {
 			f = `\x5e`
